@@ -322,3 +322,128 @@ def r7(ctx: Ctx) -> None:
             hows = sorted({m.how for m in eff.mutations(f, p) if fl in m.fields})
             ctx.report(f.where, f"writer-mutates {p}.{fl}", f"{q} modifies its argument '{p}' (field {fl}): writing twice gives different documents / a changed design",
                        lineno=f.node.lineno, how=hows[:3])
+
+
+def _only_loop(block, what: str):
+    loops = [st for st in block if st[0] == "for" and len(st) == 5]
+    if len(loops) != 1:
+        raise AnalysisError(f"{what}: expected one top-level loop, found {len(loops)}")
+    return loops[0]
+
+
+def _unconditional_appends(body, target) -> list:
+    """append(...) statements on ``target`` at the top level of a loop body (asserts may precede, no conditional around)"""
+    return [st[1][2][0] for st in body if st[0] == "expr" and st[1][0] == "c" and st[1][1] == ("a", target, "append") and len(st[1][2]) == 1]
+
+
+@rule("C04", "R8.container-codec", "LAW/SIBLING",
+      "the net codec is an exact inverse pair: the writer emits [member names in order] + [weight] iff weight != 1, for "
+      "every net; the reader takes the last entry as the weight iff it is a number (else 1) and all other entries, in "
+      "order, as the members, for every entry; modules, rectangle lists and the two top-level sections are decoded "
+      "entry by entry with their own parser and their own name", floor=7)
+def r8(ctx: Ctx) -> None:
+    from framelint.canon import single_defs, deref, K_NONE, mk_ite
+    m = ctx.model
+    # ---- writer of nets
+    fw = ctx.func(YWRITE, "dump_yaml_edges")
+    cw = canon_function(fw, m)
+    lw = _only_loop(cw, "dump_yaml_edges")
+    e = lw[1]
+    out = [st[1] for st in cw if st[0] == "set" and st[2] == ("list", ())]
+    ctx.site(fw.where, "every net is encoded: names in order, weight appended iff != 1, and the record is appended to the output")
+    ok = False
+    if len(out) == 1 and lw[2] == ("p", 0) and cw[-1] == ("ret", out[0]):
+        body = lw[3]
+        recs = [st for st in body if st[0] == "set" and st[2] == ("comp", "list", (("a", ("b", 1, 0), "name"),), ((("b", 1, 0), ("a", e, "modules"), K_TRUE),))]
+        if len(recs) == 1:
+            rec = recs[0][1]
+            wcond = [st for st in body if st[0] == "if" and st[1] == mk_not(mk_eq(("a", e, "weight"), k_num(1))) and
+                     st[2] == (("expr", ("c", ("a", rec, "append"), (("a", e, "weight"),), ())),) and st[3] == ()]
+            apps = _unconditional_appends(body, out[0])
+            ok = len(wcond) == 1 and apps == [rec] and len(body) == 3 and list(body).index(wcond[0]) < [i for i, st in enumerate(body) if st[0] == "expr"][-1]
+    if not ok:
+        ctx.report(fw.where, "net-encode", "dump_yaml_edges does not emit, for every net, the member names in order followed by the weight when it differs from 1",
+                   lineno=fw.node.lineno)
+    # ---- reader of nets
+    fr = ctx.func(YREAD, "parse_yaml_edges")
+    cr = canon_function(fr, m)
+    lr = _only_loop(cr, "parse_yaml_edges")
+    v = lr[1]
+    outr = [st[1] for st in cr if st[0] == "set" and st[2] == ("list", ())]
+    last = ("s", v, k_num(-1))
+    isnum = ("c", ("g", "is_number"), (last,), ())
+    ctx.site(fr.where, "every entry is decoded: weight = last entry iff it is a number else 1; members = all other entries in order")
+    ok = False
+    if len(outr) == 1 and lr[2] == ("p", 0) and cr[-1] == ("ret", outr[0]):
+        apps = _unconditional_appends(lr[3], outr[0])
+        if len(apps) == 1 and apps[0][0] == "c" and apps[0][1] == ("g", "NamedHyperEdge") and len(apps[0][2]) == 2:
+            mods, w = apps[0][2]
+            whole = (("s", v, ("slice", K_NONE, K_NONE, K_NONE)), v, ("c", ("g", "list"), (v,), ()))
+            want_m = [mk_ite(isnum, ("s", v, ("slice", K_NONE, k_num(-1), K_NONE)), x) for x in whole]
+            want_w = [mk_ite(isnum, ("c", ("g", "float"), (last,), ()), k_num(1)), mk_ite(isnum, last, k_num(1))]
+            ok = mods in want_m and w in want_w and not any(st[0] in ("if", "continue", "break") and contains(st, outr[0]) for st in lr[3])
+    if not ok:
+        ctx.report(fr.where, "net-decode", "parse_yaml_edges does not decode every entry as (all entries but a trailing number, that number or 1)",
+                   lineno=fr.node.lineno)
+    # ---- modules: every (name, description) pair parsed with its own name, appended in order
+    fm = ctx.func(YREAD, "parse_yaml_modules")
+    cm = canon_function(fm, m)
+    lm = _only_loop(cm, "parse_yaml_modules")
+    outm = [st[1] for st in cm if st[0] == "set" and st[2] == ("list", ())]
+    ctx.site(fm.where, "every module entry is parsed with its own name and appended in document order")
+    ok = False
+    if len(outm) == 1 and lm[2] == ("c", ("a", ("p", 0), "items"), (), ()) and lm[1][0] == "tuple" and len(lm[1][1]) == 2 and cm[-1] == ("ret", outm[0]):
+        name, info = lm[1][1]
+        ok = _unconditional_appends(lm[3], outm[0]) == [("c", ("g", "parse_yaml_module"), (name, info), ())]
+    if not ok:
+        ctx.report(fm.where, "modules-decode", "parse_yaml_modules does not parse every (name, description) pair with parse_yaml_module(name, description) in order",
+                   lineno=fm.node.lineno)
+    fwm = ctx.func(YWRITE, "dump_yaml_modules")
+    cwm = canon_function(fwm, m)
+    b0 = ("b", 1, 0)
+    ctx.site(fwm.where, "every module is written under its own name")
+    if cwm != (("ret", ("comp", "dict", (("a", b0, "name"), ("c", ("g", "dump_yaml_module"), (b0,), ())), ((b0, ("p", 0), K_TRUE),))),):
+        ctx.report(fwm.where, "modules-encode", "dump_yaml_modules is not {m.name: dump_yaml_module(m) for every module}", lineno=fwm.node.lineno)
+    # ---- rectangles: a single flat rectangle is one rectangle; every entry parsed with the module's flags
+    frr = ctx.func(YREAD, "parse_yaml_rectangles")
+    crr = canon_function(frr, m)
+    lrr = _only_loop(crr, "parse_yaml_rectangles")
+    outl = [st[1] for st in crr if st[0] == "set" and st[2] == ("list", ())]
+    ctx.site(frr.where, "every rectangle entry is parsed with the module's fixed / hard flags, in order; a flat list is one rectangle")
+    ok = False
+    if len(outl) == 1 and crr[-1] == ("ret", outl[0]):
+        rl = lrr[2]
+        ok = _unconditional_appends(lrr[3], outl[0]) == [("c", ("g", "parse_yaml_rectangle"), (lrr[1], ("p", 1), ("p", 2)), ())] and \
+            any(st[0] == "if" and st[1] == ("c", ("g", "is_number"), (("s", rl, k_num(0)),), ()) and st[2] == (("set", rl, ("list", (rl,))),) and st[3] == () for st in crr) and \
+            any(st == ("set", rl, ("p", 0)) for st in crr)
+    if not ok:
+        ctx.report(frr.where, "rectangles-decode", "parse_yaml_rectangles does not parse every entry (or the single flat rectangle) with the module's flags", lineno=frr.node.lineno)
+    # ---- sections
+    fn = ctx.func(YREAD, "parse_yaml_netlist")
+    cn = canon_function(fn, m)
+    ln = _only_loop(cn, "parse_yaml_netlist")
+    ctx.site(fn.where, "section 'Modules' -> parse_yaml_modules, section 'Nets' -> parse_yaml_edges, returned as (modules, nets)")
+    ok = False
+    if ln[1][0] == "tuple" and len(ln[1][1]) == 2 and cn[-1][0] == "ret" and cn[-1][1][0] == "tuple" and len(cn[-1][1][1]) == 2:
+        key, val = ln[1][1]
+        mv, ev = cn[-1][1][1]
+        kM, kN = k_str(kw_value(ctx, "KW_MODULES")), k_str(kw_value(ctx, "KW_NETS"))
+        sets = {}
+        for st in atoms_of(ln[3], lambda x: x[0] == "if" and x[1][0] == "cmp" and x[1][1] == "seq" and key in (x[1][2], x[1][3])):
+            kk = st[1][2] if st[1][3] == key else st[1][3]
+            for s_ in st[2]:
+                if s_[0] == "set":
+                    sets[kk] = (s_[1], s_[2])
+        ok = sets.get(kM) == (mv, ("c", ("g", "parse_yaml_modules"), (val,), ())) and sets.get(kN) == (ev, ("c", ("g", "parse_yaml_edges"), (val,), ()))
+    if not ok:
+        ctx.report(fn.where, "sections-decode", "parse_yaml_netlist does not decode 'Modules' with parse_yaml_modules and 'Nets' with parse_yaml_edges into (modules, nets)",
+                   lineno=fn.node.lineno)
+    fnw = ctx.func(NETLIST, "Netlist.write_yaml")
+    cnw = canon_function(fnw, m)
+    ctx.site(fnw.where, "the document is {'Modules': dump_yaml_modules(self.modules), 'Nets': dump_yaml_edges(self.edges)}")
+    docs = atoms_of(cnw, lambda x: x[0] == "dict" and len(x[1]) == 2)
+    s_ = ("self",)
+    want = {(k_str(kw_value(ctx, "KW_MODULES")), ("c", ("g", "dump_yaml_modules"), (("a", s_, "modules"),), ())),
+            (k_str(kw_value(ctx, "KW_NETS")), ("c", ("g", "dump_yaml_edges"), (("a", s_, "edges"),), ()))}
+    if not any(set(d[1]) == want for d in docs):
+        ctx.report(fnw.where, "sections-encode", "Netlist.write_yaml does not write the modules and the nets of this netlist under 'Modules' and 'Nets'", lineno=fnw.node.lineno)
